@@ -48,6 +48,11 @@ class JobModel:
         d = {RESOURCE_ATTR: level}
         for name, sign in zip(self.metric_names, self.signs):
             d[name] = self.value(hk, level, name, sign)
+        pn = self.s.get("nan_metric")
+        if pn:
+            u = hfloat(self.table_seed, "nanm", hk)
+            if u < pn and (level == self.max_epochs or self.s.get("nan_all_levels")):
+                d[self.metric_names[0]] = float("nan") if (u < pn / 2 or self.s.get("nan_all_levels")) else float("inf")
         if self.s.get("cost", False):
             c = 0.0
             for l in range(start_level, level + 1):  # cost since the start of this run
